@@ -213,12 +213,12 @@ PROPS = {
     "C20": dict(
         title="Masked selection primitives select exactly as their control word says",
         verus=[("gf255_m64_lin", None, "quick"), ("gf255_m64_lookup", None, "quick"), ("modint_lin", 60, "quick"),
-               ("ed25519_law", None, "quick"), ("gf255_m64_ops", None, "quick")],
+               ("ed25519_law", None, "quick"), ("gf255_m64_ops", None, "quick"), ("cond_ops_other", None, "quick"), ("jq255e_law", None, "quick"), ("jq255s_law", None, "quick")],
         kani=_gf255_k(["k_iszero_equals", "k_cond_select_cswap"]) + _gf255_k(["k_lookup16", "k_lookup16_x4"], quick_fields=()),
         cases=_f(["cond", "select", "cswap", "equals", "iszero", "lookup16_x3", "lookup16_x4", "lookup"]),
-        level_text="GF255<MQ>: set_cond, select, cswap (exact copies/swaps for ctl in {0,0xFFFFFFFF}, whole-struct frames), iszero and equals (0xFFFFFFFF iff values equal mod q, for all three representations of zero), lookup16_x3/x4 (exact entry for j<16, zeros for every other u32) proved by Verus; the same by Kani on the full domain. Other field types and point-level selection/lookups: stand-in only.",
+        level_text="GF448 and GFsecp256k1: set_cond, select, cswap proved by Verus at limb level (unchanged for ctl 0, full copy / exchange for 0xFFFFFFFF). jq255e / jq255s points: set_cond, select, set_condneg. GF255<MQ>: set_cond, select, cswap (exact copies/swaps for ctl in {0,0xFFFFFFFF}, whole-struct frames), iszero and equals (0xFFFFFFFF iff values equal mod q, for all three representations of zero), lookup16_x3/x4 (exact entry for j<16, zeros for every other u32) proved by Verus; the same by Kani on the full domain. Other field types and point-level selection/lookups: stand-in only.",
         level_note="AVX2 lookup arms not reached (intrinsics).",
-        not_reached=["point-level set_cond/select/set_condneg/lookup", "other field types", "AVX2 lookup paths"],
+        not_reached=["point-level operations of ed448, p256, secp256k1, gls254", "iszero / equals of GF448, GFsecp256k1, gfgen, binary fields", "AVX2 lookup paths"],
     ),
 }
 
